@@ -54,6 +54,27 @@ CFG = {
         "Swat4.C11.driver_queue_refines",
         "Swat4.C11.update_refused",
         "Swat4.C11.update_refused_machine",
+        "Swat4.C11.add_fresh",
+        "Swat4.C11.add_refused",
+        "Swat4.C11.add_resolved",
+        "Swat4.C11.update_missing",
+        "Swat4.C11.update_current",
+        "Swat4.C11.update_equal_version",
+        "Swat4.C11.update_newer_resolved",
+        "Swat4.C11.update_resolver_exactly_when_newer",
+        "Swat4.C11.remove_missing",
+        "Swat4.C11.remove_current",
+        "Swat4.C11.remove_defended",
+        "Swat4.C11.remove_newer_resolved",
+        "Swat4.C11.add_fresh_machine",
+        "Swat4.C11.add_refused_machine",
+        "Swat4.C11.update_missing_machine",
+        "Swat4.C11.update_current_machine",
+        "Swat4.C11.update_newer_resolved_machine",
+        "Swat4.C11.remove_defended_machine",
+        "Swat4.C11.remove_current_machine",
+        "Swat4.C11.driver_reads_are_model",
+        "Swat4.C11.driver_reads_refine",
     ],
     "shards": (4, 16),
     "nontrivial": _c11_nontrivial,
@@ -74,7 +95,7 @@ CFG = {
     ],
     "trusted_base": COMMON_TRUSTED + [
         "harness/internal/world, harness/internal/storeops (call specs, resolver behaviours) and the renderers in Drv/Store.lean / Drv/StoreRun.lean",
-        "the theorems' history runner (Lemmas/StoreRefine.lean: stepM / runHistM) re-states the driver's runCall (Drv/StoreRun.lean); for writes their agreement is proved (driver_write_refines), likewise for instance / queue calls with at most 98 queued probes (driver_queue_refines: runQC = runQ + trace labels), reads call the same model functions; not proved: that the driver's sorting of Filter results by address is permutation-invariant, and the string renderers",
+        "the theorems' history runner (Lemmas/StoreRefine.lean: stepM / runHistM) re-states the driver's runCall (Drv/StoreRun.lean); for writes their agreement is proved (driver_write_refines), likewise for instance / queue calls with at most 98 queued probes (driver_queue_refines: runQC = runQ + trace labels), the read arms are proved to render getM / hmgetItems (filterKeys .) / items.size / countByM (driver_reads_are_model, driver_reads_refine; Lemmas/StoreDrvReads.lean); not proved: that the driver's sorting of Filter results by address is permutation-invariant, and the string renderers",
     ],
     "manifest": {
         "text": "Lean theorems relating the Redis-level model of repositories/servers (Model/Store.lean + the lock/WATCH writer machine) "
@@ -87,8 +108,8 @@ CFG = {
                 "without duplicates and up to order, exactly the records satisfying FilterSet.pred (all with-bits, no no-bit, refresh and "
                 "update time in half-open ranges, never-refreshed records fail every active bound); get_refines, count_refines, "
                 "countByStatus_refines; update_refused / update_refused_machine - an Update whose resolver refuses (stored version newer) returns the "
-                "stored record with no error and changes nothing, at both levels, as servers.go does (return existing, nil); C11_main - by induction over any history of calls from the empty keyspace the model's results equal "
-                "the specification's item by item; driver_write_refines - the driver's own call runner (Drv.runCall) has this property for writes. "
+                "stored record with no error and changes nothing, at both levels, as servers.go does (return existing, nil); the prose sub-clauses of the statement as equations on the specification and, through the refinement theorems, on the writer machine with hypotheses on the store: add_fresh (absent address: caller's record stored at version+1 with update time now, reply = stored record), add_refused (existing address, resolver refuses: 'exists', nothing changes; add never compares versions), add_resolved, update_missing (not-found, no row created), update_current / update_equal_version (stored version <= caller's, equal included: caller's record at version+1, resolver not consulted), update_newer_resolved (stored version newer: the resolver gets the stored record and its result is stored at its version+1), update_resolver_exactly_when_newer, remove_missing / remove_current, remove_defended (stored version newer and resolver refuses: nothing changes, reply is still nil - success), remove_newer_resolved (erases the resolved record's key), and *_machine corollaries; C11_main - by induction over any history of calls from the empty keyspace the model's results equal "
+                "the specification's item by item; driver_write_refines - the driver's own call runner (Drv.runCall) has this property for writes; driver_reads_are_model / driver_reads_refine - its read arms render exactly getM, the list of filter_eq_pred, HLEN and countByM, hence the specification's get / filter (up to order) / count / countByStatus. "
                 "The same is proved for the other two repositories via RelI (instances:items / updated vs AbsState.instances) and RelQ (probes:items / queue vs "
                 "AbsState.queue read as a finite map id -> item, nextId strictly above every stored id): insAdd_refines / insRemove_refines / insGet_refines / "
                 "insClear_refines (inclusive bound at both levels, HDEL reply = rows removed) / insCount_refines, enqueue_refines (incl. the dropped case), "
